@@ -209,6 +209,11 @@ def path_mapping(m, ffwd, tfwd):
     return [[list(ffwd[a]), list(tfwd[b])] for a, b in m.items()]
 
 
+def path_mapping_set(m, ffwd, tfwd):
+    # a mapping is a SET of pairs: the order in which a dictionary lists them is free (Review H, variant R3)
+    return sorted(path_mapping(m, ffwd, tfwd))
+
+
 def guarded(fn):
     try:
         return ("ok", fn())
@@ -239,7 +244,7 @@ def roundtrip_failure(x, notes=None):
     xs, _ = index(xi.species_lca.tree)
     yo, _ = index(yi.object_tree)
     ys, _ = index(yi.species_lca.tree)
-    if path_mapping(xi.leaf_object_species, xo, xs) != path_mapping(yi.leaf_object_species, yo, ys):
+    if path_mapping_set(xi.leaf_object_species, xo, xs) != path_mapping_set(yi.leaf_object_species, yo, ys):
         return "leaf assignment differs"
     # the same event costs: a mapping (its key order is not one of the fields of the property)
     if dict(xi.costs) != dict(yi.costs) or any(type(xi.costs[e]) is not type(yi.costs[e]) for e in xi.costs):
@@ -249,7 +254,7 @@ def roundtrip_failure(x, notes=None):
         if bad:
             return bad
     if is_out:
-        if path_mapping(x.object_species, xo, xs) != path_mapping(y.object_species, yo, ys):
+        if path_mapping_set(x.object_species, xo, xs) != path_mapping_set(y.object_species, yo, ys):
             return "species mapping differs"
         if isinstance(x, SuperReconciliationOutput):
             bad = same_syn(x.syntenies, y.syntenies, xo, yo, "synteny labelling")
@@ -302,11 +307,13 @@ def first_diff(a, b, where=""):
 
 
 def same_syn(ma, mb, fa, fb, what):
-    ka = [list(fa[n]) for n in ma]
-    kb = [list(fb[n]) for n in mb]
-    if ka != kb:
+    # a labelling is a FUNCTION on nodes: the order in which a dictionary lists its entries is free (Review H, R3)
+    da = {tuple(fa[n]): (n, s) for n, s in ma.items()}
+    db = {tuple(fb[n]): (n, s) for n, s in mb.items()}
+    if sorted(da) != sorted(db) or len(da) != len(ma) or len(db) != len(mb):
         return f"{what}: nodes differ"
-    for (na, sa), (nb, sb) in zip(ma.items(), mb.items()):
+    for key in sorted(da):
+        (na, sa), (nb, sb) = da[key], db[key]
         if isinstance(sa, (set, frozenset)):
             # a set reads back as a list of the same families (its order is the model tie's business)
             if set(sb) != set(sa) or len(sb) != len(sa):
@@ -714,10 +721,47 @@ def check_objects(ctx, res, objs):
     compare(ctx, res, reqs)
 
 
+def _colliding_names(req):
+    def at(t, path):
+        for i in path:
+            t = t["k"][i]
+        return t["n"]
+
+    entries = req.get("m") or req.get("syn") or req.get("s") or []
+    try:
+        names = [at(req.get("ft") or req["tree"], e[0]) for e in entries]
+    except Exception:  # noqa
+        return False
+    return len(set(names)) != len(names)
+
+
+def _unordered_mappings(d):
+    """dict_form with every pair list (a mapping) sorted by key."""
+    if isinstance(d, dict):
+        return {k: (sorted(v, key=lambda kv: json.dumps(kv[0])) if k in
+                    ("leaf_object_species", "costs", "leaf_syntenies", "object_species", "syntenies")
+                    and isinstance(v, list) else _unordered_mappings(v)) for k, v in d.items()}
+    return d
+
+
 def compare(ctx, res, reqs):
     outs = ctx.driver.parallel([r for _, r, _ in reqs])
     for (case, req, impl), model in zip(reqs, outs):
         if model != impl:
+            if req["op"] in ("c11_ser_tm", "c11_ser_syn") and isinstance(model, list) and isinstance(impl, list):
+                key = lambda kv: json.dumps(kv)  # noqa: E731
+                if sorted(model, key=key) == sorted(impl, key=key):
+                    res.dist["serialised mapping: entries listed in another order than the model's (note)"] += 1
+                    continue
+                if _colliding_names(req):
+                    # several nodes of the mapping's domain share a name (outside the property's unique-name space):
+                    # which entry survives in the dictionary depends on the listing order — unspecified
+                    res.dist["serialised mapping with colliding names: surviving entry differs from the model's (note)"] += 1
+                    continue
+            if req["op"] == "c11_todict" and _unordered_mappings(model) == _unordered_mappings(impl):
+                # the ORDER in which to_dict() lists the entries of a mapping is representation (Review H, variant R3)
+                res.dist["to_dict: entries of a mapping listed in another order than the model's (note)"] += 1
+                continue
             res.tie_broken(f"{req['op']}: model vs implementation", req, model, impl)
 
 
